@@ -528,8 +528,17 @@ def get_classes():
     class Started(RuntimeError):
         pass
 
-    def create_module():
-        obj = Mod('obj', Log(), {'description': ''}, ServerStub())
+    # a module class derived from it that overrides state functions WITHOUT attaching a status: the status is inherited
+    # from the overridden method (get_status walks the MRO)
+    def mk_override(i):
+        def f(self, sm):
+            return CUR.user_function('state', i, sm)
+        f.__name__ = 'st_%d' % i
+        return f
+    Sub = type('Sub', (Mod,), {'st_%d' % i: mk_override(i) for i in (0, 1, 4)})
+
+    def create_module(cls=Mod):
+        obj = cls('obj', Log(), {'description': ''}, ServerStub())
         obj.initModule()
         try:
             def started():
@@ -563,8 +572,8 @@ def get_classes():
         c = CUR
         c.events.append(['enter', sid_of(newstate)])
 
-    _classes.update(TracedSM=TracedSM, Log=Log, Mod=Mod, create_module=create_module, raw_hook=raw_hook,
-                    fstates=fstates, module=None)
+    _classes.update(TracedSM=TracedSM, Log=Log, Mod=Mod, Sub=Sub, create_module=create_module, raw_hook=raw_hook,
+                    fstates=fstates, module=None, Status=Status)
     return _classes
 
 
@@ -998,6 +1007,66 @@ def report_violation(ctx, res, case, events, errors, bad):
                            'detail': {'violations': bad[:5], 'history': events[:200]}})
 
 
+# ---- glue around the modelled core: get_status with its cache, the busy predicate -----------------------------
+def rules_req(k, **kw):
+    return dict(setup_of({'maxloops': 2, 'hasStates': True}), k=k, **kw)
+
+
+def canon_status(v):
+    return None if v is None else [int(v[0]), str(v[1])]
+
+
+def check_glue(ctx, res):
+    K = get_classes()
+    rng = ctx.rng
+    # -- Drivable.isBusy against the model's predicate: every code, with and without argument
+    mod = K['create_module']()
+    codes = list(range(0, 520))
+    impl = [bool(mod.isBusy((c, 'x'))) for c in codes]
+    noarg = []
+    for member in K['Status'].members:
+        mod.status = (member, 'x')
+        noarg.append([int(member), bool(mod.isBusy())])
+    a = ctx.driver.batch([rules_req('isbusy', codes=codes), rules_req('isbusy', codes=[c for c, _ in noarg]),
+                          rules_req('judge_isbusy', table=[[c, b] for c, b in zip(codes, impl)] + noarg)])
+    res.evaluations += 2
+    res.traces += 1
+    res.count('glue.isbusy')
+    if a[2]['bad']:
+        res.violations.append({'sig': 'C14:hs:busy_predicate',
+                               'what': f'busy_until_finished:busy-predicate: Drivable.isBusy classifies the status codes '
+                                       f'{a[2]["bad"][:6]} differently from BUSY <= code < ERROR',
+                               'case': {'isbusy': a[2]['bad'][:6]}})
+    if ctx.model_ok:
+        if a[0]['busy'] != impl:
+            k = next(i for i, (x, y) in enumerate(zip(a[0]['busy'], impl)) if x != y)
+            res.disagreements.append({'case': {'isBusy': codes[k]}, 'model': a[0]['busy'][k], 'impl': impl[k]})
+        if a[1]['busy'] != [b for _, b in noarg]:
+            res.disagreements.append({'case': {'isBusy()': 'status of the module'}, 'model': a[1]['busy'], 'impl': noarg})
+    # -- sequences of get_status lookups on ONE module instance (fresh cache), Mod and the derived class
+    dflts = [None, None, 100, 200, 300, 300, 340, 390, 400]
+    mods = {'Mod': mod, 'Sub': K['create_module'](K['Sub'])}
+    cases, impls = [], []
+    for i in range(ctx.budget(200, 2000)):
+        cls = 'Sub' if i % 3 == 2 else 'Mod'
+        m = mods[cls]
+        m.statusMap = {}
+        qs = [[rng.randrange(NSTATES), rng.choice(dflts)] for _ in range(rng.choice([1, 2, 4, 8, 12]))]
+        out = [canon_status(m.get_status(getattr(m, 'st_%d' % s), d)) for s, d in qs]
+        cache = sorted([int(k.split('_')[1]), canon_status(v)] for k, v in m.statusMap.items())
+        cases.append({'class': cls, 'lookups': qs})
+        impls.append({'results': out, 'cache': cache})
+        m.statusMap = {}
+    answers = ctx.driver.batch([rules_req('getstatus', lookups=c['lookups']) for c in cases])
+    for c, im, a in zip(cases, impls, answers):
+        if 'driver_error' in a:
+            raise RuntimeError(f'driver error: {a}')
+        res.evaluations += 1
+        res.count('glue.getstatus.' + c['class'])
+        if ctx.model_ok and (a['results'] != im['results'] or a['cache'] != im['cache']):
+            res.disagreements.append({'case': c, 'model': a, 'impl': im})
+
+
 # ---- entry points -----------------------------------------------------------------------------------------
 def run(ctx):
     res = Result()
@@ -1020,6 +1089,8 @@ def run(ctx):
             batch.append((case, ev, err))
     check_cases(ctx, res, [b for b in batch if not b[0].get('split')], 'corpus')
     check_cases(ctx, res, [b for b in batch if b[0].get('split')], 'corpus', compare=False)
+    # ---------- glue: get_status / statusMap, isBusy ----------
+    check_glue(ctx, res)
     # ---------- exhaustive ----------
     depth = (7 if thorough else 6) + (1 if ctx.escalated else 0)
     for hs in (False, True):
@@ -1063,6 +1134,13 @@ def run(ctx):
 
 def replay(ctx, rp):
     case = rp['case']
+    if 'isbusy' in case:
+        mod = get_classes()['create_module']()
+        table = [[c, bool(mod.isBusy((c, 'x')))] for c in case['isbusy']]
+        a = ctx.driver.batch([rules_req('judge_isbusy', table=table)])[0]
+        print('isBusy :', table)
+        print('judge  :', a)
+        return 1 if a.get('bad') else 0
     events, errors, _, _ = impl_run(case)
     reqs = [judge_req(case, events)]
     if not case.get('split'):
